@@ -15,7 +15,9 @@ TARGET = os.path.join(infra.CACHE, "cargo-target", "derive")
 
 RUST_TYPES = {"string": "String", "u32": "u32"}
 IDENTS = ["verbose", "name", "file_name", "max_depth", "dry_run", "x", "v", "n", "outputFile", "logLevel", "a_b_c", "level2",
-          "input", "jobs", "color_mode", "q", "Z", "keep_going", "retries", "tag", "user_id", "noCache", "r", "w"]
+          "input", "jobs", "color_mode", "q", "Z", "keep_going", "retries", "tag", "user_id", "noCache", "r", "w",
+          # identifiers need not be ASCII: one CHARACTER (not one byte) makes a short name
+          "ä", "ñ", "größe", "naïve_mode", "λ"]
 VARIANTS = ["Alpha", "Beta", "GammaRay", "Delta", "E", "ListAll", "DryRun", "Quiet", "X", "ShowHelpText", "Fast", "Slow2"]
 CMD_VARIANTS = ["Build", "RunTests", "Add", "RemoveAll", "Sync", "DoIt"]
 DOCS = ["help text", "Two words", "line one\nline two", "uses -dashes- and 'quotes'", "trailing period."]
